@@ -135,7 +135,8 @@ func (r *Router) ServeHTTP(res http.ResponseWriter, req *http.Request) {
 func (r *Router) HandleContext(c *Context) {
 	c.Reset()
 	r.handleHTTPRequest(c)
-	r.ctxPool.Put(c)
+	// Notice: don't put the context to the pool here. It is owned by the caller: a context that is being
+	// served by ServeHTTP() is released there, releasing it twice hands it to two later requests at once.
 }
 
 // handle HTTP Request
